@@ -201,6 +201,33 @@ Section Pool.
       | Some (p, _) => match merge_into0 p with Some a => SOk a | None => SPanic end
       end.
 
+  (* The threadpool at the pinned version (threadpool.go AddJob/worker): the job wrapper runs
+     `defer wg.Done()` BEFORE the worker calls setError(jobGroup, err), so Wait can pass its
+     wait group and read the error slot before the error of a failing job is stored.
+     late = that failing job's setError lands after Wait's getError.  step_with_errors above is
+     the model under the assumption that no failure is late. *)
+  Fixpoint par_run_late (polls : bool) (tr : list (jevent * bool)) (p : pool) (err : bool) : option (pool * bool) :=
+    match tr with
+    | [] => Some (p, err)
+    | ((i, j), late) :: r =>
+      if polls && err then par_run_late polls r p err
+      else match j with
+           | JErr => par_run_late polls r p (if late then err else true)
+           | JOk c => match upd i (job_lazy c) p with
+                      | Some p' => par_run_late polls r p' err
+                      | None => None
+                      end
+           end
+    end.
+  Definition step_with_errors_late (polls : bool) (k : nat) (stale : pool) (tr : list (jevent * bool)) : sres :=
+    if Nat.eqb k 1 then step_with_errors polls k stale (map fst tr)
+    else
+      match par_run_late polls tr (clear_flags stale) false with
+      | None => SPanic
+      | Some (p, true) => SErr
+      | Some (p, false) => match merge_into0 p with Some a => SOk a | None => SPanic end
+      end.
+
   (* call sites that discard the result of AddRangeJob/AddJob and only test Wait
      (matrixEstimator/shapeHmm_data.go:115; scalarEstimator/numeric.go:117,143 discards both):
      on the nil pool (k = 1) the error of a job is returned by AddJob and lost; the jobs queued
